@@ -55,7 +55,14 @@ func rgBool(b bool) int64 {
 	return 0
 }
 
-func runRecvGlueCase(w *bufio.Writer, r *u.Rng, caseNo int, dist map[string]int) {
+// rgTable is a fixed table case: configuration and op sequence do not depend on the seed.
+// step = {kind, a, b}: kind 0 = STREAM frame [a, a+b), 1 = Read(a), 2 = getControlFrame.
+type rgTable struct {
+	rw, maxrw, cw, cmax int64
+	steps               [][3]int64
+}
+
+func runRecvGlueCase(w *bufio.Writer, r *u.Rng, caseNo int, dist map[string]int, tab *rgTable) {
 	var human []string
 	defer func() {
 		if e := recover(); e != nil {
@@ -72,6 +79,10 @@ func runRecvGlueCase(w *bufio.Writer, r *u.Rng, caseNo int, dist map[string]int)
 	maxrw := rw * int64(r.Range(1, 4))
 	cw := small[r.Intn(len(small))] * int64(r.Range(1, 3))
 	cmax := cw * int64(r.Range(1, 4))
+	if tab != nil {
+		rw, maxrw, cw, cmax = tab.rw, tab.maxrw, tab.cw, tab.cmax
+	}
+	advMax := rw // the largest stream limit put on the wire so far (initial window, MAX_STREAM_DATA)
 	allowAns := true
 	conn := flowcontrol.NewConnectionFlowController(protocol.ByteCount(cw), protocol.ByteCount(cmax),
 		func(protocol.ByteCount) bool { return allowAns }, rtt, utils.DefaultLogger)
@@ -108,8 +119,16 @@ func runRecvGlueCase(w *bufio.Writer, r *u.Rng, caseNo int, dist map[string]int)
 		return k - appRead
 	}
 	nops := r.Range(4, 30)
+	if tab != nil {
+		nops = len(tab.steps)
+	}
 	for i := 0; i < nops && !dead; i++ {
-		switch r.Intn(8) {
+		tune := r.Intn(8)
+		if tab != nil {
+			tune = 7
+			now += 1000000 // 1 ms: far below the RTT
+		}
+		switch tune {
 		case 0, 1:
 			now += int64(r.Range(0, 400)) * 1000000
 		case 2:
@@ -122,7 +141,11 @@ func runRecvGlueCase(w *bufio.Writer, r *u.Rng, caseNo int, dist map[string]int)
 			limit = min(limit, final)
 		}
 		c0, d0 := sender.ctrlCalls, sender.completedCalls
-		switch c := r.Intn(20); {
+		c := r.Intn(20)
+		if tab != nil {
+			c = []int{0, 8, 19}[tab.steps[i][0]]
+		}
+		switch {
 		case c < 8: // STREAM frame
 			var off, n int64
 			switch r.Intn(9) {
@@ -147,6 +170,9 @@ func runRecvGlueCase(w *bufio.Writer, r *u.Rng, caseNo int, dist map[string]int)
 				n = 0
 			}
 			fin := r.Chance(1, 6)
+			if tab != nil {
+				off, n, fin = tab.steps[i][1], tab.steps[i][2], false
+			}
 			if final >= 0 {
 				fin = off+n == final && r.Bool()
 			}
@@ -157,6 +183,9 @@ func runRecvGlueCase(w *bufio.Writer, r *u.Rng, caseNo int, dist map[string]int)
 			err := str.handleStreamFrame(&wire.StreamFrame{StreamID: id, Offset: protocol.ByteCount(off), Data: data, Fin: fin}, monotime.Time(now))
 			emit(u.App("OFrame", u.Z(off), u.Z(n), u.B(fin), u.Z(now)), errCode(err), int64(sender.completedCalls-d0), 0,
 				fmt.Sprintf("STREAM[%d,%d)fin=%v", off, off+n, fin))
+			if te, ok := err.(*qerr.TransportError); ok && te.ErrorCode == qerr.FlowControlError && off+n <= advMax && max(hi, off+n) <= cw {
+				fmt.Fprintf(w, "MONFAIL\trecvglue/rejects-within-advertised\tSTREAM frame up to offset %d answered with FLOW_CONTROL_ERROR, the largest stream limit advertised is %d (connection limit %d)\t%s\n", off+n, advMax, cw, strings.Join(human, " ; "))
+			}
 			if err != nil {
 				dead = true
 				break
@@ -181,6 +210,9 @@ func runRecvGlueCase(w *bufio.Writer, r *u.Rng, caseNo int, dist map[string]int)
 				continue
 			}
 			n := r.Range(1, int(max(avail, 1))+3)
+			if tab != nil {
+				n = int(tab.steps[i][1])
+			}
 			buf := make([]byte, n)
 			type res struct {
 				n   int
@@ -262,6 +294,10 @@ func runRecvGlueCase(w *bufio.Writer, r *u.Rng, caseNo int, dist map[string]int)
 					kind = 1
 				case *wire.MaxStreamDataFrame:
 					kind, val = 2, int64(fr.MaximumStreamData)
+					if val <= advMax {
+						fmt.Fprintf(w, "MONFAIL\trecvglue/max-stream-data-not-increasing\tMAX_STREAM_DATA(%d) after the limit %d had been advertised\t%s\n", val, advMax, strings.Join(human, " ; "))
+					}
+					advMax = max(advMax, val)
 				}
 			}
 			emit(u.App("OCtrl", u.Z(now), u.Z(srtt), u.B(fast), u.B(allowAns)), kind, val, rgBool(more), "getControlFrame()")
@@ -299,8 +335,16 @@ func runRecvGlueCase(w *bufio.Writer, r *u.Rng, caseNo int, dist map[string]int)
 func VerifRunRecvGlue(w *bufio.Writer, seed uint64, n int) {
 	r := u.NewRng(u.NewRng(seed).U64() ^ 0xC04C04)
 	dist := map[string]int{}
+	// fixed table cases on every seed: auto-tuning with a configured maximum window below the initial one
+	for _, c := range [][2]int64{{524288, 131072}, {1000, 500}, {1000, 499}, {1000, 501}, {1000, 250}, {16, 7}, {1000, 1500}} {
+		ini, mx := c[0], c[1]
+		part := ini * 6 / 10
+		runRecvGlueCase(w, u.NewRng(5), 99, dist, &rgTable{rw: ini, maxrw: mx, cw: 8 * ini, cmax: 16 * ini, steps: [][3]int64{
+			{0, 0, part}, {1, part, 0}, {2, 0, 0}, {0, part, ini - part}, {1, ini - part, 0}, {2, 0, 0}, {0, ini, 1},
+		}})
+	}
 	for i := 0; i < n; i++ {
-		runRecvGlueCase(w, r.Fork(), i, dist)
+		runRecvGlueCase(w, r.Fork(), i, dist, nil)
 	}
 	keys := make([]string, 0, len(dist))
 	for k := range dist {
